@@ -155,6 +155,7 @@ func (m *Manager) acquireSemaphore(ctx context.Context) error {
 		return m.sigs.term.Err()
 
 	case m.sem.Get() <- struct{}{}:
+		drpcdebug.Point("manager.acquireSemaphore.acquired")
 		if err := m.waitForPreviousStream(ctx); err != nil {
 			m.sem.Recv()
 			return err
@@ -198,6 +199,7 @@ func (m *Manager) waitForPreviousStream(ctx context.Context) (err error) {
 func (m *Manager) terminate(err error) {
 	if m.sigs.term.Set(err) {
 		m.log("TERM", func() string { return fmt.Sprint(err) })
+		drpcdebug.Point("manager.terminate.beforeClose")
 		m.sigs.tport.Set(m.tr.Close())
 		m.sbuf.Close()
 	}
@@ -243,6 +245,7 @@ func (m *Manager) manageReader() {
 		}
 
 		m.log("READ", pkt.String)
+		drpcdebug.Point("manager.manageReader.beforeDispatch")
 
 	again:
 		switch curr := m.sbuf.Get(); {
@@ -303,6 +306,7 @@ func (m *Manager) newStream(ctx context.Context, sid uint64, kind, rpc string) (
 	stream := drpcstream.NewWithOptions(ctx, sid, m.wr, opts)
 	select {
 	case m.streams <- streamInfo{ctx: ctx, stream: stream}:
+		drpcdebug.Point("manager.newStream.beforeSet")
 		m.sbuf.Set(stream)
 		m.log("STREAM", stream.String)
 		return stream, nil
@@ -346,6 +350,7 @@ func (m *Manager) manageStream(ctx context.Context, stream *drpcstream.Stream) {
 
 	case <-ctx.Done():
 		m.log("CANCEL", stream.String)
+		drpcdebug.Point("manager.manageStream.ctxDone")
 
 		if m.opts.SoftCancel {
 			// allow a new stream to begin.
